@@ -227,9 +227,11 @@ func cmdCheck(args []string) int {
 		}
 		cfg := RunConfig{Workers: *workers, Budget: 5_000_000, Solver: "z3-new", TimeoutMs: 20000, CapConc: 64, KeepPaths: 12, Verbose: *verbose,
 			Props: map[string]bool{id: true}, Deadline: deadline}
+		cfg.FeAudit = 500
 		if *tier == "thorough" {
 			cfg.Cross = "cvc5"
 			cfg.KeepPaths = 40
+			cfg.FeAudit = 50
 		}
 		var fns []*ssa.Function
 		insts := byTarget[tg]
@@ -423,6 +425,8 @@ func cmdCheck(args []string) int {
 		queries.PropUnsat += res.Q.PropUnsat
 		queries.PropUnknown += res.Q.PropUnknown
 		queries.FrontEnd += res.Q.FrontEnd
+		queries.FeAudited += res.Q.FeAudited
+		queries.FeAuditDiff += res.Q.FeAuditDiff
 		queries.ModelHits += res.Q.ModelHits
 		solverTime += res.SolverTime
 		solverCalls += res.SolverQ
@@ -482,6 +486,8 @@ func cmdCheck(args []string) int {
 		"property":    map[string]int{"sat": queries.PropSat, "unsat": queries.PropUnsat, "unknown": queries.PropUnknown, "decided_concretely_on_path": queries.ModelHits},
 	}
 	cov["front_end_decisions"] = queries.FrontEnd
+	cov["front_end_audit"] = map[string]interface{}{"re_asked_to_solver": queries.FeAudited, "disagreements": queries.FeAuditDiff,
+		"rule": "feasibility conditions over one small variable (or over a cone of small variables whose domain product is <= 4096) are decided by exact evaluation over the variables' domains; every n-th such decision (n=500 quick, 50 thorough) is also sent to z3 and must agree; property assertions always go to the solver unless they are already constant on the path"}
 	cov["solver_calls"] = solverCalls
 	cov["solver_time_s"] = round1(solverTime.Seconds())
 	cov["solver"] = "z3-new 5.1.0 (one persistent process per worker)"
